@@ -12,12 +12,17 @@ from yv.ch._load import compatibility
 FNS = ["ZM-VFNS", "FFNS", "FFN0", "FONLL-FFNS", "FONLL-FFN0"]
 
 
-def check_fns(fns_i: int, nf: int) -> bool:
+def check_fns(fns_i: int, nf: int, stale_c: bool = False, stale_b: bool = False, stale_t: bool = False, stale_val: bool = False) -> bool:
     """
     pre: 0 <= fns_i < 5
     post: _
     """
     th = {"FNS": FNS[fns_i], "NfFF": nf, "PTO": 1, "kcThr": 1.25, "kbThr": 1.5, "ktThr": 2.0}
+    # a card may still carry ZMc/ZMb/ZMt from an earlier life (copied from a card of another scheme, upgraded twice):
+    # the scheme decides, not the left-over value
+    for fl, stale in (("c", stale_c), ("b", stale_b), ("t", stale_t)):
+        if stale:
+            th[f"ZM{fl}"] = stale_val
     compatibility.update_fns(th)
     ks = [th[f"k{fl}Thr"] for fl in "cbt"]
     zm = [th[f"ZM{fl}"] for fl in "cbt"]
